@@ -93,11 +93,11 @@ def engine(ctx):
         except Exception:
             pass
     t0 = time.time()
-    n = ctx.n(64, 300)
+    n = ctx.n(64, 200)
     base = ctx.seed * 100000
     cases = [gfi_run.make_case(base + s, depth=(2 if s % 3 else 3)) for s in range(n)]
     # malformed stream (C22): static bodies that trace one address twice
-    ndup = ctx.n(6, 20)
+    ndup = ctx.n(6, 12)
     k = 0
     while sum(1 for c in cases if c["flavour"] == "dup") < ndup and k < 40 * ndup:
         c = gfi_run.make_case(base + 50000 + k, depth=2, flavour="dup")
@@ -106,7 +106,7 @@ def engine(ctx):
             cases.append(c)
     # targeted stream: every combinator as the root of some programs (see gfi_run.make_case)
     for ri, root in enumerate(ROOTS):
-        for j in range(ctx.n(2, 6)):
+        for j in range(ctx.n(2, 4)):
             cases.append(gfi_run.make_case(base + 60000 + 100 * ri + j, depth=2, flavour="root:" + root))
     outs = gfi_run.run_cases(cases, procs=14)
     t_impl = time.time() - t0
